@@ -589,6 +589,9 @@ func (w *Whisper) propagate(archiveID int, ts []Timestamp, now Timestamp) (propa
 			return nil, err
 		}
 		values := filterValidValues(points, fromInterval, rHigh)
+		if len(values) == 0 {
+			continue
+		}
 		knownFactor := float32(len(values)) / float32(len(points))
 		if knownFactor < w.XFilesFactor() {
 			continue
